@@ -389,8 +389,9 @@ fn attrs_of<'tcx>(cx: &Cx<'tcx>, did: DefId) -> J {
     for a in tcx.hir_attrs(hir_id) {
         match a {
             rustc_hir::Attribute::Unparsed(item) => {
-                if let Ok(s) = sm.span_to_snippet(item.span) {
-                    v.push(J::s(s));
+                match sm.span_to_snippet(item.span) {
+                    Ok(s) => v.push(J::s(s)),
+                    Err(_) => v.push(J::s(format!("unparsed:{:?}", item.path))),
                 }
             }
             rustc_hir::Attribute::Parsed(k) => {
